@@ -263,7 +263,8 @@ def run(ctx):
                     break
             # scipy's chebyt/chebyu tables are floats built from roots (never exact, tiny non-zeros at the
             # opposite-parity positions): normwise budget
-            msg = cmp_lists(model, implk, [max(mag)] * len(model), d, False)
+            # (scipy builds the tables from roots: their relative error grows with the degree, hence (n+2)^2)
+            msg = cmp_lists(model, implk, [max(mag) * (d + 2)] * len(model), d, False)
             if msg:
                 ctx.fail("helpers", c, "%s kind=%s: %s" % ("cheb2poly" if c["fn"] == "c2p" else "poly2cheb", c["kind"], msg))
                 break
